@@ -27,6 +27,9 @@ pub struct PeerOpts {
     pub tick_ms: u64,
     pub invoke: Option<ChildOpts>,
     pub go_on_start: bool,
+    /// the invoking state talks to its child (`#_kid`): on every hello / childmsg / poke it receives, i.e. also
+    /// while the child session is still starting or already ending
+    pub poke_kid: bool,
 }
 
 pub struct ChildOpts {
@@ -47,6 +50,7 @@ fn child_doc(c: &ChildOpts) -> String {
         s.push_str(&format!("<send target=\"#_parent\" event=\"childmsg.late\" delay=\"{}ms\"/>", ms));
     }
     s.push_str("</onentry>");
+    s.push_str("<transition event=\"poke\"><send target=\"#_parent\" event=\"childmsg.poked\"/></transition>");
     if c.finish {
         s.push_str("<transition target=\"cdone\"/>");
     } else {
@@ -85,8 +89,10 @@ pub fn peer_doc(o: &PeerOpts) -> String {
     if let Some(c) = &o.invoke {
         s.push_str(&format!("  <invoke id=\"kid\" autoforward=\"{}\"><content>{}</content></invoke>\n", c.autoforward, child_doc(c)));
     }
-    s.push_str("  <transition event=\"hello\"><send targetexpr=\"_event.origin\" event=\"hi\"/></transition>\n");
-    s.push_str("  <transition event=\"childmsg\"><assign location=\"n\" expr=\"n + 1\"/></transition>\n");
+    let poke = if o.poke_kid && o.invoke.is_some() { "<send target=\"#_kid\" event=\"poke\"/>" } else { "" };
+    s.push_str(&format!("  <transition event=\"hello\"><send targetexpr=\"_event.origin\" event=\"hi\"/>{}</transition>\n", poke));
+    s.push_str(&format!("  <transition event=\"childmsg.poked\"><assign location=\"n\" expr=\"n + 1\"/></transition>\n  <transition event=\"childmsg\"><assign location=\"n\" expr=\"n + 1\"/>{}</transition>\n", poke));
+    s.push_str(&format!("  <transition event=\"poke\">{}</transition>\n", poke));
     s.push_str("  <transition event=\"back\" target=\"idle\"/>\n  <transition event=\"done.invoke\" target=\"idle\"/>\n");
     s.push_str("  <transition event=\"ping\"><script>mark('pong')</script></transition>\n </state>\n</scxml>\n");
     s
@@ -160,6 +166,7 @@ impl Property for C17Prop {
                 tick_ms: rng.range(1, 15),
                 invoke: if rng.chance(1, 2) { Some(mk_child(rng)) } else { None },
                 go_on_start: rng.chance(1, 4),
+                poke_kid: rng.chance(1, 2),
             };
             docs.push(DocSrc { name: o.name.clone(), xml: peer_doc(&o), via_rfsm: false, model: None });
         }
@@ -172,6 +179,7 @@ impl Property for C17Prop {
                 tick_ms: rng.range(1, 15),
                 invoke: if rng.chance(1, 3) { Some(mk_child(rng)) } else { None },
                 go_on_start: rng.chance(1, 3),
+                poke_kid: rng.chance(1, 2),
             };
             docs.push(DocSrc { name: o.name.clone(), xml: peer_doc(&o), via_rfsm: false, model: None });
         }
@@ -188,7 +196,7 @@ impl Property for C17Prop {
             let p = rng.below(np as u64) as usize;
             producers[p].push(PStep::Start { doc: m + k });
         }
-        let evs = ["go", "back", "hello", "finish", "go", "back"];
+        let evs = ["go", "back", "hello", "finish", "go", "back", "poke", "poke"];
         for p in 0..np {
             for _ in 0..rng.range(1, 5) {
                 let sess = rng.below(m as u64) as usize;
